@@ -1,0 +1,6 @@
+//go:build !verif
+
+package eval
+
+// verifNoCache is a verification hook (see verif_hook.go); without the verif build tag the cache is always on.
+func verifNoCache() bool { return false }
